@@ -150,6 +150,32 @@ theorem connInner_frame (cfg : Config) {srv : Server} (hw : WFc srv) {cn : Conn}
   repeat' split
   all_goals first | exact ⟨hx, hself⟩ | exact inSession_frame cfg hw hcn r _ hx h1 h2
 
+theorem find?_map_id (f : Conn → Conn) (hid : ∀ x, (f x).id = x.id) (d : Nat) :
+    ∀ l : List Conn, (l.map f).find? (·.id == d) = (l.find? (·.id == d)).map f := by
+  intro l
+  induction l with
+  | nil => rfl
+  | cons a t ih =>
+    simp only [List.map_cons, List.find?_cons, hid]
+    split
+    · rfl
+    · exact ih
+
+theorem arm_findConn_sess (b s : Server) (c d : Nat) (cn' : Conn) (h : findConn (arm b s c) d = some cn') :
+    ∃ cn0, findConn s d = some cn0 ∧ cn0.sess = cn'.sess := by
+  unfold findConn arm at h
+  rw [find?_map_id _ (by intro x; split; rfl; split <;> rfl)] at h
+  cases hf : s.conns.find? (·.id == d) with
+  | none => rw [hf] at h; cases h
+  | some cn0 =>
+    rw [hf] at h
+    simp only [Option.map_some, Option.some.injEq] at h
+    refine ⟨cn0, hf, ?_⟩
+    rw [← h]
+    split
+    · rfl
+    · split <;> rfl
+
 /-- **bystanders_untouched**: a request changes nothing about a session that is neither the one its
 connection is associated with nor the one named by its Session header — the record stays in the
 server exactly as it was (so `ServerSession.State()` of every other session is unchanged). -/
@@ -163,7 +189,10 @@ theorem handleRequest_bystander (cfg : Config) {srv : Server} (hw : WFc srv) {cn
   rw [heq] at hm hl
   dsimp only
   split
-  · exact closeConn_mem_other hm hl
+  · refine closeConn_mem_other (srv := arm srv srv1 cn.id) hm ?_
+    intro cn' hf
+    obtain ⟨cn0, hf0, hs0⟩ := arm_findConn_sess srv srv1 cn.id cn.id cn' hf
+    rw [← hs0]; exact hl cn0 hf0
   · show x ∈ (setMode srv1 cn.id res.err).sessions
     rw [setMode_sessions]; exact hm
 
